@@ -551,3 +551,34 @@ def call_recv_args(n):
     if n["k"] == "MethodCall":
         return n["recv"], n["args"]
     return (n["args"][0] if n["args"] else None), n["args"][1:]
+
+
+class BoolUnx(Exception):
+    pass
+
+
+def bool_eval(e, classify, env):
+    """truth value of a HIR condition built from `&&`, `||`, `!`, `== true/false` over atoms; `classify(expr)` names an atom
+    (looked up in env) or returns None"""
+    e = peel(e)
+    while e.get("k") in ("DropTemps", "Use") or (e.get("k") == "Block" and not e.get("stmts") and e.get("expr") is not None):
+        e = peel(e["e"] if e.get("k") != "Block" else e["expr"])
+    a = classify(e)
+    if a is not None:
+        if a not in env:
+            raise BoolUnx(f"atom {a}")
+        return env[a]
+    k = e.get("k")
+    if k == "Lit" and e["lit"]["t"] == "bool":
+        return e["lit"]["v"]
+    if k == "Unary" and e["op"] == "Not":
+        return not bool_eval(e["a"], classify, env)
+    if k == "Binary" and e["op"] in ("And", "Or"):
+        x = bool_eval(e["a"], classify, env)
+        y = bool_eval(e["b"], classify, env)
+        return (x and y) if e["op"] == "And" else (x or y)
+    if k == "Binary" and e["op"] in ("Eq", "Ne"):
+        x = bool_eval(e["a"], classify, env)
+        y = bool_eval(e["b"], classify, env)
+        return (x == y) if e["op"] == "Eq" else (x != y)
+    raise BoolUnx(ekey(e)[:60])
